@@ -76,15 +76,21 @@ def IsLead (l : Char) : Prop := l = ' ' ∨ l = 'T'
 microseconds of the `h:m:s` part and of the fraction -/
 inductive TimeText : List Char → Int → Int → Prop
   | none : TimeText [] 0 0
-  | hm (l : Char) (hh mm : List Char) : IsLead l → IsNumeral 2 hh → IsNumeral 2 mm →
+  | hm (l : Char) (hh mm : List Char) : IsLead l → IsNumeral 2 hh → IsNumeral 2 mm → digitsVal hh < 24 → digitsVal mm < 60 →
       TimeText (l :: (hh ++ ':' :: mm)) ((digitsVal hh * 3600000000 + digitsVal mm * 60000000 : Nat) : Int) 0
   | hms (l : Char) (hh mm ss : List Char) : IsLead l → IsNumeral 2 hh → IsNumeral 2 mm → IsNumeral 2 ss →
+      digitsVal hh < 24 → digitsVal mm < 60 → digitsVal ss < 60 →
       TimeText (l :: (hh ++ ':' :: (mm ++ ':' :: ss)))
         ((digitsVal hh * 3600000000 + digitsVal mm * 60000000 + digitsVal ss * 1000000 : Nat) : Int) 0
   | frac (l : Char) (hh mm ss fr : List Char) : IsLead l → IsNumeral 2 hh → IsNumeral 2 mm → IsNumeral 2 ss → IsNumeral 6 fr →
+      digitsVal hh < 24 → digitsVal mm < 60 → digitsVal ss < 60 →
       TimeText (l :: (hh ++ ':' :: (mm ++ ':' :: (ss ++ '.' :: fr))))
         ((digitsVal hh * 3600000000 + digitsVal mm * 60000000 + digitsVal ss * 1000000 : Nat) : Int)
         ((digitsVal fr * 10 ^ (6 - fr.length) : Nat) : Int)
+
+/-- the `h:m:s` part of a time suffix is a time of day ≥ 0 (so `dtCs` does not take the "impossible time" exit) -/
+theorem TimeText.nonneg {tm : List Char} {a b : Int} (h : TimeText tm a b) : ¬ (a < 0) := by
+  cases h <;> omega
 
 theorem TimeText.ndh {tm : List Char} {a b : Int} (h : TimeText tm a b) : NonDigitHead tm := by
   cases h with
@@ -107,7 +113,7 @@ theorem parseTime_text (fuel : Nat) (tm : List Char) (hms us : Int) (h : TimeTex
   have dot : ∀ r, NonDigitHead ('.' :: r) := fun r => ndh_cons _ _ (by decide)
   cases h with
   | none => rw [scan_nil]; rfl
-  | hm l hh mm hl h1 h2 =>
+  | hm l hh mm hl h1 h2 r1 r2 =>
     have l1 := h1.len_pos; have l2 := h2.len_pos
     simp only [List.length_cons, List.length_append] at hf
     obtain ⟨tk, htk, e⟩ := scan_lead fuel (by omega) l hl 2 hh (':' :: mm) h1
@@ -115,8 +121,8 @@ theorem parseTime_text (fuel : Nat) (tm : List Char) (hms us : Int) (h : TimeTex
     have := scan_numeral (fuel - 1 - 1 - 1) (by omega) 2 mm [] h2 ndh_nil
     rw [List.append_nil] at this
     rw [this, scan_nil]
-    rcases htk with rfl | rfl <;> simp [parseTime]
-  | hms l hh mm ss hl h1 h2 h3 =>
+    rcases htk with rfl | rfl <;> simp [parseTime, r1, r2]
+  | hms l hh mm ss hl h1 h2 h3 r1 r2 r3 =>
     have l1 := h1.len_pos; have l2 := h2.len_pos; have l3 := h3.len_pos
     simp only [List.length_cons, List.length_append] at hf
     obtain ⟨tk, htk, e⟩ := scan_lead fuel (by omega) l hl 2 hh (':' :: (mm ++ ':' :: ss)) h1
@@ -125,8 +131,8 @@ theorem parseTime_text (fuel : Nat) (tm : List Char) (hms us : Int) (h : TimeTex
     have := scan_numeral (fuel - 1 - 1 - 1 - 1 - 1) (by omega) 2 ss [] h3 ndh_nil
     rw [List.append_nil] at this
     rw [this, scan_nil]
-    rcases htk with rfl | rfl <;> simp [parseTime]
-  | frac l hh mm ss fr hl h1 h2 h3 h4 =>
+    rcases htk with rfl | rfl <;> simp [parseTime, r1, r2, r3]
+  | frac l hh mm ss fr hl h1 h2 h3 h4 r1 r2 r3 =>
     have l1 := h1.len_pos; have l2 := h2.len_pos; have l3 := h3.len_pos; have l4 := h4.len_pos
     have l4' := h4.2.1
     simp only [List.length_cons, List.length_append] at hf
@@ -137,7 +143,7 @@ theorem parseTime_text (fuel : Nat) (tm : List Char) (hms us : Int) (h : TimeTex
     have := scan_numeral (fuel - 1 - 1 - 1 - 1 - 1 - 1 - 1) (by omega) 6 fr [] h4 ndh_nil
     rw [List.append_nil] at this
     rw [this, scan_nil]
-    rcases htk with rfl | rfl <;> simp [parseTime, l4']
+    rcases htk with rfl | rfl <;> simp [parseTime, l4', r1, r2, r3]
 
 /-- ANY text `a<sep>b<sep>yyyy[ time]` — one or two digit fields, padded or not, any two of the four separators, any
 time suffix — is the ambiguous form whose first number is the value of `a` -/
